@@ -6,14 +6,14 @@ from fractions import Fraction
 
 import numpy as np
 
-from common import F, qlist, Toks
+from common import F, qlist, qtok, Toks
 
 ID = 'C14'
-GEN_SECTIONS = ['GenShape']
+GEN_SECTIONS = ['GenShape', 'GenTimeShape']
 COQ_TARGETS = ['Props/C14.vo']
 LEVEL = 'proof'
 MANIFEST = {
-    'text': "Theorems (Coq, all arrays of all lengths): the marker-based run-length decoder inverts the encoder for every integer derivative sequence, the error-feedback quantiser reconstructs every sample within 5e-8, the full compress/decompress pair (both force flags, raw/compressed decision) round-trips within 5e-8 and never stores more than the input. Constants (1e-7, <=4, -2/+2) are re-read from the source on every run; the extracted model is run against compress_shape/decompress_shape on ~1500 (quick) / 60000 (thorough) arrays and the 5e-8 bound is evaluated exactly on the implementation's output, also through sequence+file.",
+    'text': "Theorems (Coq, all arrays of all lengths): the marker-based run-length decoder inverts the encoder for every integer derivative sequence, the error-feedback quantiser reconstructs every sample within 5e-8, the full compress/decompress pair (both force flags, raw/compressed decision) round-trips within 5e-8 and never stores more than the input; time points (Model/TimeShape.v, tolerance read from block.py): a time vector with any point on the gradient raster is never taken for raster samples, raster-centred samples always are, an explicit time shape decodes to exactly the points handed over and a vector judged regular to within tolerance x raster of them. Constants (1e-7, <=4, -2/+2) are re-read from the source on every run; the extracted model is run against compress_shape/decompress_shape on ~1500 (quick) / 60000 (thorough) arrays and the 5e-8 bound is evaluated exactly on the implementation's output, also through sequence+file; the regular/explicit decision of every stored gradient of the in-memory stream (including vectors moved off the cell centres by 0.5e-6 .. 1e-3 raster) is compared with the extracted model.",
     'note': 'Trusted: Coq kernel; translator patterns for compress_shape.py/decompress_shape.py; extraction (ExtrOcamlBasic) + driver; binary64/NumPy arithmetic is outside the model (sampled by correspondence, tie-prone inputs oracle-only); printing/parsing of shape tokens sampled through the file stream.',
     'technique': 'Rocq/Coq proof over a Gallina model (induction over runs / samples) + extraction-based correspondence',
 }
@@ -393,6 +393,7 @@ def file_stream_long(ctx, rng, count):
 
 
 PREV_LOADED = []
+DECISIONS = []
 
 
 def memory_stream(ctx, rng, count):
@@ -410,9 +411,25 @@ def memory_stream(ctx, rng, count):
         stored = {}
         kinds = []
         for b in range(rng.randint(2, 5)):
-            kind = rng.choice(['twinfam', 'twinfam', 'ext1', 'ext', 'smoothfam'])
+            kind = rng.choice(['twinfam', 'twinfam', 'ext1', 'ext', 'smoothfam', 'offcentre'])
             evs = []
-            if kind in ('twinfam', 'smoothfam'):
+            if kind == 'offcentre':
+                # raster samples whose time points are moved off the cell centres by a fraction of the raster around the
+                # 1e-6 tolerance of the regular/explicit decision (either side of it, one point or all of them)
+                n = rng.randint(4, 20)
+                w = np.round(np.array([rng.uniform(-1, 1) for _ in range(n)]), 7)
+                w[rng.randrange(n)] = 1.0
+                g = pp.make_arbitrary_grad(rng.choice('xyz'), w, first=0.0, last=0.0, system=system)
+                d = rng.choice([0.5e-6, 0.9e-6, 1.1e-6, 2e-6, 1e-3]) * rng.choice([1, -1])
+                tt = np.array(g.tt, dtype=float)
+                if rng.random() < 0.5:
+                    j = rng.randrange(1, n)
+                    tt[j] = tt[j] + d * r
+                else:
+                    tt[1:] = tt[1:] + d * r
+                g.tt = tt
+                evs.append(g)
+            elif kind in ('twinfam', 'smoothfam'):
                 n = rng.randint(6, 40)
                 if kind == 'twinfam':
                     base = np.round(np.array([rng.uniform(-1, 1) for _ in range(n)]), 7)
@@ -455,7 +472,8 @@ def memory_stream(ctx, rng, count):
         ctx.count('stream.memory')
         ctx.count('memory.raster_%gus' % (r * 1e6))
 
-        def compare(obj, where):
+        def compare(obj, where, rr=None):
+            rr = rr or r
             for i, evs in stored.items():
                 try:
                     blk = obj.get_block(i)
@@ -473,13 +491,23 @@ def memory_stream(ctx, rng, count):
                         dt = float(np.max(np.abs(np.asarray(g.tt) - np.asarray(e.tt))))
                         if dw > 5e-8 + 2e-9:
                             bad = {'what': 'sample differs from the one handed over by more than 5e-8 of full scale', 'max_abs_diff': dw}
-                        elif dt > 1e-6 * r:
+                        elif dt > 1e-6 * rr:
                             bad = {'what': 'time points differ from the ones handed over', 'max_abs_diff': dt,
                                    'got_head': [float(v) for v in g.tt[:4]], 'want_head': [float(v) for v in e.tt[:4]]}
                     if bad:
                         ctx.fail('C14/memory-%s' % where, dict(case, block=int(i), channel=e.channel), bad)
                         return False
             return True
+        # the regular / explicit decision of every stored gradient, against the model (Model/TimeShape.v)
+        for i, evs in stored.items():
+            row = seq.block_events[i]
+            for e in evs:
+                gid = int(row[2 + 'xyz'.index(e.channel)])
+                try:
+                    impl_regular = int(seq.grad_library.data[gid][2]) == 0
+                except Exception:  # noqa: BLE001
+                    continue
+                DECISIONS.append((dict(case, block=int(i), channel=e.channel), r, [float(v) for v in e.tt], impl_regular))
         if not compare(seq, 'stored'):
             continue
         # history on the same object: the last block has been decoded; overwrite it with a gradient whose shape is new to
@@ -517,12 +545,37 @@ def memory_stream(ctx, rng, count):
         compare(s2, 'reread')
         # the object loaded in the PREVIOUS case still holds that case's shapes, whatever was read elsewhere since
         if PREV_LOADED:
-            pobj, pstored, pcase = PREV_LOADED.pop()
+            pobj, pstored, pcase, pr = PREV_LOADED.pop()
             keep_stored, keep_case = stored, case
             stored, case = pstored, dict(pcase, rechecked_after_index=k)
-            compare(pobj, 'earlier-object-after-later-read')
+            compare(pobj, 'earlier-object-after-later-read', pr)
             stored, case = keep_stored, keep_case
-        PREV_LOADED.append((s2, dict(stored), dict(case)))
+        PREV_LOADED.append((s2, dict(stored), dict(case), r))
+
+
+def flush_decisions(ctx):
+    if not DECISIONS or not ctx.model_available:
+        del DECISIONS[:]
+        return
+    lines = ['shape.ttreg %s %s' % (qtok(F(r)), qlist(F(v) for v in tt)) for _, r, tt, _ in DECISIONS]
+    outs = ctx.model(lines)
+    for (case, r, tt, impl), o in zip(DECISIONS, outs):
+        ctx.count('timeshape.decisions')
+        ctx.count('timeshape.%s' % ('regular' if impl else 'explicit'))
+        if o.strip() not in ('0', '1'):
+            ctx.mismatch('timeshape', case, {'model': o[:100]})
+            continue
+        # the implementation evaluates |tt/raster - 1/2 - k| < 1e-6 in binary64: only vectors within 1e-9 of the threshold
+        # may legitimately come out on the other side
+        k = np.arange(len(tt))
+        margin = np.min(np.abs(np.abs(np.asarray(tt) / r - 0.5 - k) - 1e-6)) if len(tt) else 1.0
+        if (o.strip() == '1') != impl:
+            if margin < 1e-9:
+                ctx.benign_divergence('timeshape', case, {'margin': float(margin)})
+            else:
+                ctx.mismatch('timeshape', case, {'model_regular': o.strip() == '1', 'impl_regular': impl, 'raster': r,
+                                                 'tt_head': tt[:4]})
+    del DECISIONS[:]
 
 
 def corpus():
@@ -578,6 +631,7 @@ def run(ctx):
     file_stream_rich(ctx, ctx.rng('file-rich'), {'quick': 60, 'thorough': 2000}[ctx.tier])
     file_stream_long(ctx, ctx.rng('file-long'), {'quick': 1, 'thorough': 6}[ctx.tier])
     memory_stream(ctx, ctx.rng('memory'), {'quick': 120, 'thorough': 3000}[ctx.tier])
+    flush_decisions(ctx)
 
 
 def replay(ctx, case):
